@@ -350,6 +350,13 @@ func c06Impl(cs *vrt.Case, r *vrt.Rng) {
 		wires = append(wires, randWires(r, n))
 		flags = append(flags, choiceVec(r, n, pat))
 		got = append(got, make([]ot.Label, n))
+		if r.Bool() {
+			// a recycled destination: the caller's slice still holds old labels
+			for i := range got[b] {
+				got[b][i] = ot.Label{D0: r.U64(), D1: r.U64()}
+			}
+			cs.Count("receives_into_a_destination_that_holds_old_labels", 1)
+		}
 	}
 	tk := r.Intn(3)
 	d := newDuplex(r, tk, false)
@@ -469,6 +476,15 @@ func c06IKNP(cs *vrt.Case, r *vrt.Rng) {
 		c.b = choiceVec(r, c.n, pat)
 		calls = append(calls, c)
 	}
+	// some destinations are recycled buffers that still hold old contents
+	dirty := make([]bool, ncalls)
+	dirtyFill := make([]uint64, ncalls)
+	for i := range dirty {
+		dirty[i], dirtyFill[i] = r.Intn(3) == 0, r.U64()
+		if dirty[i] {
+			cs.Count("receives_into_a_destination_that_holds_old_labels", 1)
+		}
+	}
 	sent := make([][]ot.Label, ncalls)
 	recv := make([][]ot.Label, ncalls)
 	sbits := make([][]uint64, ncalls)
@@ -482,6 +498,11 @@ func c06IKNP(cs *vrt.Case, r *vrt.Rng) {
 		for i, c := range calls {
 			if c.bits {
 				sbits[i] = make([]uint64, (c.n+63)/64)
+				if dirty[i] {
+					for k := range sbits[i] {
+						sbits[i][k] = ^dirtyFill[i]
+					}
+				}
 				if err := s.SendBits(c.n, sbits[i]); err != nil {
 					return fmt.Errorf("SendBits: %w", err)
 				}
@@ -507,11 +528,21 @@ func c06IKNP(cs *vrt.Case, r *vrt.Rng) {
 					}
 				}
 				rbits[i] = make([]uint64, (c.n+63)/64)
+				if dirty[i] {
+					for k := range rbits[i] {
+						rbits[i][k] = dirtyFill[i]
+					}
+				}
 				if err := rc.ReceiveBits(ch, rbits[i], c.n); err != nil {
 					return fmt.Errorf("ReceiveBits: %w", err)
 				}
 			} else {
 				recv[i] = make([]ot.Label, c.n)
+				if dirty[i] {
+					for k := range recv[i] {
+						recv[i][k] = ot.Label{D0: dirtyFill[i] + uint64(k), D1: ^dirtyFill[i]}
+					}
+				}
 				if err := rc.Receive(c.b, recv[i], c.mal); err != nil {
 					return fmt.Errorf("Receive: %w", err)
 				}
